@@ -580,6 +580,8 @@ class XsdElement(XsdComponent, ParticleMixin,
                 with self.maps.protect_status():
                     if ns in self.maps.namespaces:
                         schema = self.maps.namespaces[ns][0]
+                        if schema.maps is not self.maps:
+                            continue  # a namespace of the shared meta-schema is not extended
                         schema.include_schema(url, context.source.base_url)
                     else:
                         schema = self.schema
@@ -1435,6 +1437,8 @@ class Xsd11Element(XsdElement):
                 with self.maps.protect_status():
                     if ns in self.maps.namespaces:
                         schema = self.maps.namespaces[ns][0]
+                        if schema.maps is not self.maps:
+                            continue  # a namespace of the shared meta-schema is not extended
                         schema.include_schema(url, context.source.base_url)
                     else:
                         schema = self.schema
